@@ -19,6 +19,7 @@ EXPLANATION = (
     "minus enclosing try/except: nothing may escape; C34.2 every `return <value>` (unquoted display) is dominated by the true edge of "
     "`parse_tag_value(<value>) == <value>` and isinstance(<value>, str); every other return is json.dumps(<value>); C34.3 parse_tag_value "
     "JSON-decodes exactly the strings starting with [ { \" and falls back int -> float -> literal -> str."
+    ' C34.4 the `return int(..)`/`return float(..)` fallbacks of parse_tag_value are gated only by the empty/JSON-prefix tests; a constant-regex gate is accepted only if it admits every numeral witness of int/float repr (1e+16, 1e-05, -0.0, Infinity, ...); other gates are an unknown idiom (exit 2).'
 )
 
 TAGS = "redun/tags.py"
